@@ -112,6 +112,11 @@ claim("C12", "other",
       "Same machinery as C05 with the model-level entry points (~1530 reachable bodies, ~450 sites): every reachable panic-capable site is discharged, audited or known. Reference-following recursion: every registry lookup function (DecisionEvaluator::evaluate, BusinessKnowledgeModelEvaluator::evaluate, DecisionServiceEvaluator::evaluate, the three item-definition evaluators, bring_knowledge_requirements_into_context) that lies on a call-graph cycle not passing through a generic FEEL evaluator call is reported: the pinned tree has no requirement-cycle detection, so all seven are listed as known findings, each with a witness model under known_findings_witnesses/ that makes the real code overflow its stack. While ModelEvaluator::new holds the write lock of a registry, the build it calls provably never locks the same registry again (8 acquisitions). Three index panics on malformed decision tables were repaired with a fix: commit.",
       "Same trusted base as C05. roxmltree is a leaf assumed total on arbitrary text. The seven reference cycles are one missing validation pass (requirement / typeRef cycle detection), not repaired because it is a new pass over three relations rather than a local patch.",
       "DESIGN.md §3 C12, §2.4 G1/G2/G5")
+claim("C19", "other",
+      "panic-site inventory (G1) over everything reachable from dmntk_recognizer's scan / Recognizer::recognize / builder::build with dominating-guard discharge rules and a per-site audited table; canvas-grid immutability rule on resolved MIR calls",
+      "Decides the 'never a panic' clause only. All ~236 panic-capable sites (index, unwrap, checked arithmetic, Vec::remove) reachable from the recogniser's entry points are enumerated from MIR; each is discharged by a dominating check, or audited against one of three stated invariants (canvas = fixed rectangle after scan(); plane = non-empty rectangle after finalize(); builder sizes validated by validate_size()). The canvas invariant's side condition (no Canvas method pushes/inserts/removes on the grid) is machine-checked with a positive control on scan(). Two real panics (ragged plane in pivot(), rule-number scan leaving the plane) were repaired with a fix: commit.",
+      "The audited reasons are human arguments, recorded per site and keyed by function, kind and occurrence, so any new or moved panic-capable site is reported. Recognition fidelity (same table as drawn / same result as the XML form) depends on run-time geometry and is not decided.",
+      "DESIGN.md §3 C19, §2.4 G1")
 
 
 def main():
